@@ -4,3 +4,4 @@ import FlowCalDriver.File
 import FlowCalDriver.Index
 import FlowCalDriver.Pickle
 import FlowCalDriver.Heap
+import FlowCalDriver.Gate
